@@ -28,6 +28,39 @@ def _loc(ea, line: int) -> str:
     return f"{ea.comp.module.rel}:{line}"
 
 
+def _no_jump_can_cross(ea, fname: str) -> bool:
+    """The dispatcher `fname` (the completion-value compiler) is never entered under a loop, switch or labelled
+    context and creates none itself: every method that calls it, and every branch of it, puts only try contexts on
+    loop_stack.  Then no break/continue can leave a statement it compiles (there is no target; return is not allowed
+    at program level), and operands waiting below a nested statement cannot be left behind by a jump."""
+    import ast as _ast
+
+    from ..core import norm as _norm
+
+    try:
+        for br in ea.run_chain(fname):
+            for e in br.ends:
+                for c in e.ctxs:
+                    if not c.is_try:
+                        return False
+    except Exception:
+        return False
+    for name, m in ea.methods.items():
+        if isinstance(m.node, _ast.Lambda):
+            continue
+        calls = [c for c in m.own_nodes() if isinstance(c, _ast.Call) and _norm(c.func) == f"self.{fname}"]
+        if not calls or name == fname:
+            continue
+        for c in m.own_nodes():
+            if isinstance(c, _ast.Call) and _norm(c.func).endswith("LoopContext"):
+                kw = {k.arg: k.value for k in c.keywords}
+                if not ("is_try" in kw and isinstance(kw["is_try"], _ast.Constant) and kw["is_try"].value is True):
+                    return False
+            if isinstance(c, _ast.Call) and _norm(c.func) == "self._new_loop_context":
+                return False
+    return True
+
+
 def compute(ctx) -> List[Ob]:
     if getattr(ctx, "_e3_obs", None) is not None:
         return ctx._e3_obs
@@ -58,6 +91,8 @@ def compute(ctx) -> List[Ob]:
             for key, (ok, msg, line) in sorted(o13.items()):
                 if key.startswith("finalizer-self@") and ok:
                     continue
+                if not ok and key.startswith("operands@") and fname != "_compile_statement" and _no_jump_can_cross(ea, fname):
+                    ok = True  # no loop, switch or label is ever around these statements: nothing can jump out of them
                 obs.append(Ob("O13", f"{base}:{key}", ok, "" if ok else f"{br.cls} branch of {fname}: {msg}", _loc(ea, line)))
             for e in live_ends:
                 for ob, key, msg, line in e.findings:
